@@ -960,11 +960,15 @@ MANIFEST = dict(
                "tables and trees. Tied to the real code on every run by a differential correspondence on the real flat "
                "AST captured at the annotate_states stage boundary (generated Modelica files, hand-built flat classes "
                "with prefix combinations the parser cannot produce, and annotate_states alone on deep random trees) "
-               "plus a direct oracle that recomputes every list from the case description.",
+               "plus a direct oracle that recomputes every list from the case description; and by a translator: the category the "
+               "real Generator.exitClass gives to each of the 16 subsets of the deciding prefixes (both spellings) is read off "
+               "the sources under test into Generated/ClassifyTable.lean on every run, `source_table_agrees` is the proof "
+               "obligation over it and `catOf_keys` lifts the finite table to every prefix list (`current_code_category`).",
     level_note="Trusted: Lean kernel + standard axioms; the harness (generators, AST serialiser, direct oracle); "
                "MX.is_empty and Python's stable sort as documented. The model, not the Python, is what the theorems "
                "are about.",
     technique="Lean 4 proof (refinement of a listener state machine to a structural specification; permutation/sublist "
-              "reasoning over a stable sort) + model/implementation correspondence + direct oracle",
+              "reasoning over a stable sort; finite category table regenerated from the sources and lifted by a lemma) + "
+              "source translator + model/implementation correspondence + direct oracle",
 )
 READY = True
